@@ -2,7 +2,11 @@
 
 proof : Properties/C35.v (debug_info_sound over every write/newline trace, bookkeeping invariant,
         token_lines)
-tie   : K-gen  the REAL code generator's write / newline calls are recorded from outside (a
+tie   : T5    gen/dbg_translate.py turns the current source of CodeGenerator.write / newline / writeline, the
+        bookkeeping fields' initial values and Template.get_corresponding_lineno into terms of Lib/DbgPy; the
+        generated build/C35/Gen_dbg.v proves  interpreted source = Model.Dbg step / corresponding  for all
+        states and arguments (and checks that nothing else assigns the bookkeeping fields);
+        K-gen  the REAL code generator's write / newline calls are recorded from outside (a
         subclass installed as environment.code_generator_class; no source hook) for every
         generated template and replayed through the extracted model: code line of every write,
         the final debug_info pairs (== Template._debug_info), get_corresponding_lineno of every
@@ -64,7 +68,14 @@ class Gen:
             return ["{{ [1,", "    2,", "    3]|length }}"]
         if c == 4:
             self.multiline_above = True
-            return ["{% raw %}", "{{ not", "a tag {% %}", "{% endraw %}"]
+            v = r.randint(0, 3)
+            if v == 0:
+                return ["{% raw %}", "{{ not", "a tag {% %}", "{% endraw %}"]
+            if v == 1:      # the opening tag swallows the line breaks after it
+                return ["{% raw -%}", "", "", "{{ not a tag", "{% endraw %}"]
+            if v == 2:      # the opening tag is written over several lines
+                return ["{%", "  raw", "%}", "{{ not a tag", "{%", " endraw %}"]
+            return ["{%- raw -%}", "", "x {% %}", "", "{%- endraw -%}", ""]
         if c == 5:
             return ["{% set v@ = 3 %}".replace("@", str(self.fresh()))]
         if c == 6:
@@ -128,9 +139,23 @@ class Gen:
             return ["{% block b@ %}".replace("@", str(k))] + inner(in_macro=in_macro, allow_block=False) + ["{% endblock %}"]
         raise AssertionError(kind)
 
+    # (lines, index of the line that carries the raising expression)
     RUNTIME_MARKERS = [
-        ["{{ boom() }}"], ["text {{ boom() }} text"], ["{% if boom() %}x{% endif %}"], ["{% for q in boom() %}{% endfor %}"],
-        ["{% set z = boom() %}"], ["{{ 1 + boom() + 2 }}"], ["   {{ boom()|default(1) }}"], ["{{ 'a' }}{{ boom() }}{{ 'b' }}"],
+        (["{{ boom() }}"], 0), (["text {{ boom() }} text"], 0), (["{% if boom() %}x{% endif %}"], 0),
+        (["{% for q in boom() %}{% endfor %}"], 0), (["{% set z = boom() %}"], 0), (["{{ 1 + boom() + 2 }}"], 0),
+        (["   {{ boom()|default(1) }}"], 0), (["{{ 'a' }}{{ boom() }}{{ 'b' }}"], 0),
+        # expressions in places other than a print statement / a tag's main expression
+        (["{% with wb = boom() %}x{% endwith %}"], 0), (["{% with wa = 1, wb = boom() %}", "x", "{% endwith %}"], 0),
+        (["{% autoescape boom() %}x{% endautoescape %}"], 0),
+        (["{% set capf | default(boom()) %}x{% endset %}"], 0), (["{% filter default(boom()) %}x{% endfilter %}"], 0),
+        (["{% macro dm@(a=boom()) %}", "{{ a }}", "{% endmacro %}", "", "{{ dm@() }}"], 0),
+        (["{% macro cw@(a) %}{{ caller() }}{% endmacro %}", "", "{% call cw@(boom()) %}", "x", "{% endcall %}"], 2),
+        (["{% for q in [1] if boom() %}x{% endfor %}"], 0), (["{% for q in [1] %}", "{{ loop.index }}", "{% else %}", "{% endfor %}{% for r in boom() %}{% endfor %}"], 3),
+        (["{% if false %}", "a", "{% elif boom() %}", "b", "{% endif %}"], 2),
+        (["{% include boom() %}"], 0), (["{% import boom() as zz@ %}"], 0), (["{% from boom() import zq@ %}"], 0),
+        (["{% include [boom(), 'x'] ignore missing %}"], 0),
+        (["{% set sa@, sb@ = boom() %}"], 0), (["{{ 1 if boom() else 2 }}"], 0), (["{{ [1, 2][boom()] }}"], 0),
+        (["{{ 'x'", "   ~ 'y' }}", "{{ boom() }}"], 2),
     ]
     # (lines, index of the line that carries the offending token)
     SYNTAX_MARKERS = [
@@ -163,9 +188,9 @@ class Gen:
         out = []
         in_raw = False
         for i, ln in enumerate(lines):
-            if "{% raw %}" in ln:
+            if "raw" in ln and "endraw" not in ln:
                 in_raw = True
-            if not in_raw and r.random() < 0.25:
+            if not in_raw and "raw" not in ln and r.random() < 0.25:
                 if r.random() < 0.5:
                     ln = ln.replace("{% ", "{%- ", 1)
                 if r.random() < 0.5 and ln.rstrip().endswith("%}"):
@@ -174,7 +199,7 @@ class Gen:
                     ln = ln.replace("{{ ", "{{- ", 1)
                 if r.random() < 0.3 and ln.rstrip().endswith("}}"):
                     ln = ln.rstrip()[:-2] + "-}}"
-            if "{% endraw %}" in ln:
+            if "endraw" in ln:
                 in_raw = False
             out.append(ln)
         return out
@@ -188,13 +213,23 @@ class Gen:
         if syntax:
             mlines, midx = r.choice(self.SYNTAX_MARKERS)
         else:
-            mlines, midx = r.choice(self.RUNTIME_MARKERS), 0
-        shape = r.choice(["single", "single", "include", "extends-child", "extends-parent", "super", "import"])
+            mlines, midx = r.choice(self.RUNTIME_MARKERS)
+            kk = str(self.fresh() + 900)
+            mlines = [ln.replace("@", kk) for ln in mlines]
+        shape = r.choice(["single", "single", "include", "extends-child", "extends-parent", "super", "import", "extends-expr"])
+        if shape == "extends-expr" and syntax:
+            shape = "single"
         depth = r.randint(0, 3)
         T = {}
         if shape == "single":
             lines, mark = self.template(depth, mlines, midx)
             T["main"] = lines
+            where = "main"
+        elif shape == "extends-expr":
+            head, _ = self.template(r.randint(0, 1), None, 0)
+            mlines, midx = ["{% extends boom() %}"], 0
+            T["main"] = head + mlines + ["{% block xb %}x{% endblock %}"]
+            mark = len(head) + 1
             where = "main"
         elif shape == "include":
             lines, mark = self.template(depth, mlines, midx)
@@ -406,6 +441,20 @@ def run(ctx):
         "debug.rewrite_traceback_stack / fake_traceback are not modelled: only the resulting traceback is compared",
     ]
     ctx.proof("C35")
+    # T5 tie: the current source of write / newline / writeline / get_corresponding_lineno, translated into
+    # Lib/DbgPy terms, is proved equal to the model functions for every state and argument
+    import os
+    import sys
+    sys.path.insert(0, os.path.join(lib.ROOT, "gen"))
+    import dbg_translate
+    try:
+        ok, out = ctx.coq_obligation("Gen_dbg", dbg_translate.emit(lib.SRC), n_obligations=5)
+        if ok:
+            ctx.trusted.append("Gen_dbg (source = model equations): " + " ".join(out.split()))
+    except dbg_translate.Untranslatable as e:
+        ctx.obligations += 5
+        ctx.obligation_names.append("Gen_dbg (regenerated, 5)")
+        ctx.broken.append(f"translator gen/dbg_translate.py: the bookkeeping source left the translatable vocabulary: {e}")
     n = ctx.size(4000, 40000)
     acc = ([], [])
     for idx in range(n):
